@@ -2,10 +2,10 @@ package main
 
 import (
 	"fmt"
-	"strings"
 	"go/ast"
 	"go/token"
 	"go/types"
+	"strings"
 
 	"golang.org/x/tools/go/cfg"
 )
@@ -81,20 +81,34 @@ func checkC18(w *World, r *Report) {
 	// ---- R18.2
 	{
 		fi := ro.createInstance
-		info := fi.Pkg.TypesInfo
-		var recv types.Object
-		if fi.Decl.Recv != nil && len(fi.Decl.Recv.List[0].Names) == 1 {
-			recv = info.Defs[fi.Decl.Recv.List[0].Names[0]]
-		}
 		n := 0
-		for _, c := range callsIn(fi.Decl.Body, true) {
-			cal := callee(info, c)
-			if cal == nil || recvNamed(cal) == nil || recvNamed(cal).Obj().Name() != "ConstructorInvoker" || len(c.Args) < 2 {
+		for _, site := range invokeSites(w, ro) {
+			g, c := site.fn, site.call
+			ginfo := g.Pkg.TypesInfo
+			if len(c.Args) < 2 {
 				continue
+			}
+			var grecv types.Object
+			if g.Decl.Recv != nil && len(g.Decl.Recv.List[0].Names) == 1 {
+				grecv = ginfo.Defs[g.Decl.Recv.List[0].Names[0]]
 			}
 			n++
 			last := c.Args[len(c.Args)-1]
-			r.Check(objOf(info, last) == recv && recv != nil, "R18.2", fmt.Sprintf("%s#resolver/%d", fi.Name(), n), c.Pos(), false,
+			good := objOf(ginfo, last) == grecv && grecv != nil
+			if g != fi {
+				// the helper is a method called on createInstance's own receiver
+				for caller := range w.Callers()[g] {
+					for _, cc := range callsIn(caller.Decl.Body, true) {
+						if callee(caller.Pkg.TypesInfo, cc) == g.Obj {
+							rcv, _, isM := methodCall(cc)
+							if !isM || !w.isReceiver(objOf(caller.Pkg.TypesInfo, rcv)) {
+								good = false
+							}
+						}
+					}
+				}
+			}
+			r.Check(good, "R18.2", fmt.Sprintf("%s#resolver/%d", fi.Name(), n), c.Pos(), false,
 				"the constructing scope itself is the resolver handed to the invoker", "the invoker is given "+exprStr(last)+" as resolver, not the scope that constructs the instance: injected context/scope/scoped services would come from another scope")
 		}
 		if n == 0 {
